@@ -402,9 +402,12 @@ def run(chk, only=None):
         chk.replayers["compute"] = REPLAYERS["compute"]
         ccells = []
         for kind, flav, proc, (sch, nf, zm), pto, pto_evol, (ren, fact) in itertools.product(
-                ["F2", "FL", "F3", "g1"], ["light", "total", "charm"], ["NC", "CC"],
+                ["F2", "FL", "F3", "g1"], ["light", "total", "charm", "top"], ["NC", "CC"],
                 [("ZM-VFNS", 4, (1, 1, 1)), ("FFNS", 3, (0, 0, 0)), ("FFN0", 3, (0, 0, 0))], [0, 1, 2, 3], [0, 1, 2, 3], [(True, True), (False, True)]):
-            if chk.tier == "quick" and hash((kind, flav, proc, sch, pto, pto_evol, ren)) % 9:
+            # 'top' in ZM-VFNS with 4 flavours: a point to which no channel contributes still answers with (zero) operators for every order
+            if flav == "top" and sch != "ZM-VFNS":
+                continue
+            if chk.tier == "quick" and hash((kind, flav, proc, sch, pto, pto_evol, ren)) % 9 and not (flav == "top" and kind == "F2" and proc == "NC" and pto == pto_evol and ren):
                 continue
             ccells.append(dict(kind=kind, flav=flav, proc=proc, sch=sch, nf=nf, zm=zm, pto=pto, pto_evol=pto_evol, ren=ren, fact=fact))
         ncomp = 0
